@@ -49,7 +49,7 @@ theorem round_down_bits {F p eb} (lay : Layout F p eb) (fp : ExtendedFloat80) (h
 /-- fields of a finite pattern `k·2^(p−1) + q` (`q` carries the hidden bit when `k > 0` or `q ≥ 2^(p−1)`) -/
 theorem decode_kq {F p eb} (lay : Layout F p eb) (hden : F.C.denormalExponent = 1 - F.C.exponentBias)
     (k q : Nat) (h1 : 0 < k → 2 ^ (p - 1) ≤ q) (h2 : q < 2 * 2 ^ (p - 1))
-    (hfin : k * 2 ^ (p - 1) + q < F.fmt.infBits) :
+    (hfin : k * 2 ^ (p - 1) + q ≤ F.fmt.infBits) :
     floatMantissa F (k * 2 ^ (p - 1) + q) = q ∧
     floatExponent F (k * 2 ^ (p - 1) + q) = (k : Int) + 1 - F.C.exponentBias := by
   have hfp : F.fmt.p = p := by rw [lay.fmt]
@@ -73,9 +73,12 @@ theorem decode_kq {F p eb} (lay : Layout F p eb) (hden : F.C.denormalExponent = 
       rw [e1, Nat.add_comm, Nat.add_mul_div_right _ _ hTpos, Nat.div_eq_of_lt hqT]; omega
     have hmod : (k * T + q) % T = q - T := by
       rw [e1, Nat.add_comm, Nat.add_mul_mod_self_right, Nat.mod_eq_of_lt hqT]
-    have hk1 : k + 1 < 2 ^ eb - 1 := by
+    have hk1 : k + 1 < 2 ^ eb := by
       apply Classical.byContradiction; intro hc
-      have : (2 ^ eb - 1) * T ≤ (k + 1) * T := Nat.mul_le_mul_right T (by omega)
+      have : 2 ^ eb * T ≤ (k + 1) * T := Nat.mul_le_mul_right T (by omega)
+      have e2 : (2 ^ eb - 1) * T + T = 2 ^ eb * T := by
+        have := Nat.two_pow_pos eb
+        rw [← Nat.succ_mul]; congr 1; omega
       rw [e1] at hfin; omega
     rw [hdiv, hmod, Nat.mod_eq_of_lt (by omega)]
     have hne : ¬ (k + 1 = 0) := by omega
@@ -160,7 +163,7 @@ theorem roundNE_of_bracket {f : Fmt} (hf : WF f) {num den : Nat} (hd : 0 < den) 
 
 theorem bhOf_kq {F p eb} (lay : Layout F p eb) (hden : F.C.denormalExponent = 1 - F.C.exponentBias)
     (k q : Nat) (h1 : 0 < k → 2 ^ (p - 1) ≤ q) (h2 : q < 2 * 2 ^ (p - 1))
-    (hfin : k * 2 ^ (p - 1) + q < F.fmt.infBits) :
+    (hfin : k * 2 ^ (p - 1) + q ≤ F.fmt.infBits) :
     bhOf F (k * 2 ^ (p - 1) + q) = ⟨2 * q + 1, (k : Int) - F.C.exponentBias⟩ := by
   obtain ⟨dm, de⟩ := decode_kq lay hden k q h1 h2 hfin
   unfold bhOf bOf
@@ -193,7 +196,7 @@ theorem negativeDigitComp_abstract {F p eb} (lay : Layout F p eb)
       0 ≤ (round F fp (fun f s => roundNearestTieEven f s (fun isOdd _ _ => ordUp ord isOdd))).exp ∧
       extendedToFloat F (round F fp (fun f s => roundNearestTieEven f s (fun isOdd _ _ => ordUp ord isOdd))) =
         encode F.fmt k (q + if ordUp ord (decide (q % 2 = 1)) then 1 else 0))
-    (hfin : k * 2 ^ (p - 1) + q < F.fmt.infBits)
+    (hfin : k * 2 ^ (p - 1) + q ≤ F.fmt.infBits)
     (hfinal : roundNE F.fmt M (radix ^ (-e).toNat) = encode F.fmt k
       (q + if ordUp (compare (2 * (M * 2 ^ L F.fmt)) ((2 * q + 1) * 2 ^ k * radix ^ (-e).toNat)) (decide (q % 2 = 1))
         then 1 else 0))
@@ -310,7 +313,7 @@ theorem negativeDigitComp_core {F p eb} (lay : Layout F p eb)
     rw [round_down_bits lay fp hm1 hm2 hp2, ← hk, ← hq]
     unfold encode
     rw [hfp, if_neg (by omega)]
-  apply negativeDigitComp_abstract lay hden hdbg hr Th T2 hM fp he he' k q (by omega) hbits h1 qb ?_ hfin hfinal
+  apply negativeDigitComp_abstract lay hden hdbg hr Th T2 hM fp he he' k q (by omega) hbits h1 qb ?_ (Nat.le_of_lt hfin) hfinal
     hfitT hfitR
   intro ord
   obtain ⟨r1, r2⟩ := round_bits lay fp.mant fp.exp (fun isOdd _ _ => ordUp ord isOdd) hm1 hm2 hp2
@@ -550,5 +553,50 @@ theorem negativeDigitComp_tiny_weak {F p eb} (lay : Layout F p eb)
     (roundNE_of_weak_bracket lay.wf (Nat.pow_pos (by omega) : 0 < radix ^ (-e).toNat) 0 0 (by omega)
       (by have := Nat.two_pow_pos (F.fmt.p - 1); omega) (by simpa using hinfpos) (by simp) (by simpa using hhi))
     hfitT hfitR
+
+/-! ## the estimate rounds down to infinity -/
+
+/-- **`b = +∞`**: an estimate of a value of at least `2^(emax+1)` that `lemire` did not answer itself. `bh(+∞)` is the
+hidden bit with the all-ones exponent field, `(2·2^(p−1) + 1)·2^(2^eb − 2 − bias)`; whatever the comparison says, the
+final `round` overflows again: the result is `+∞ = roundNE` of the value. -/
+theorem negativeDigitComp_inf {F p eb} (lay : Layout F p eb)
+    (hden : F.C.denormalExponent = 1 - F.C.exponentBias) {E : Env} (hdbg : E.debug = false)
+    {radix h : Nat} (hr : radix = 2 * h) (Th : BigPowOk E h) (T2 : BigPowOk E 2)
+    {M : Nat} (hM : M ≠ 0) (fp : ExtendedFloat80) (hm1 : 2 ^ 63 ≤ fp.mant) (hm2 : fp.mant < 2 ^ 64)
+    (hp2 : -fp.exp + 1 ≤ 64) {e : Int} (he : e < 0) (he' : -(2 ^ 28 : Int) < e)
+    (hov : F.fmt.infBits ≤ (fp.exp + 64 - p - 1).toNat * 2 ^ (p - 1) + fp.mant / 2 ^ shiftOf p fp.exp)
+    (hval : roundNE F.fmt M (radix ^ (-e).toNat) = F.fmt.infBits)
+    (hfitT : (2 * 2 ^ (p - 1) + 1) * h ^ (-e).toNat * 2 ^ (((2 ^ eb - 2 : Nat) : Int) - F.C.exponentBias - e).toNat <
+      2 ^ (64 * E.L.bigintLimbs))
+    (hfitR : M * 2 ^ (-(((2 ^ eb - 2 : Nat) : Int) - F.C.exponentBias - e)).toNat < 2 ^ (64 * E.L.bigintLimbs)) :
+    ∃ r, negativeDigitComp E F radix M fp e = some r ∧ 0 ≤ r.exp ∧
+      extendedToFloat F r = roundNE F.fmt M (radix ^ (-e).toNat) := by
+  have hp := lay.hp; have hp64 := lay.hp64; have heb := lay.heb; have heb15 := lay.heb15
+  have hfp : F.fmt.p = p := by rw [lay.fmt]
+  have hinf : F.fmt.infBits = (2 ^ eb - 1) * 2 ^ (p - 1) := by rw [lay.fmt]; rfl
+  have hT := Nat.two_pow_pos (p - 1)
+  have heb4 : 4 ≤ 2 ^ eb := by
+    calc 4 = 2 ^ 2 := rfl
+      _ ≤ 2 ^ eb := Nat.pow_le_pow_right (by decide) heb
+  have heb15' : 2 ^ eb ≤ 2 ^ 15 := Nat.pow_le_pow_right (by decide) heb15
+  have h15 : (2 : Nat) ^ 15 = 32768 := by norm_num
+  have h20 : (2 : Int) ^ 20 = 1048576 := by norm_num
+  have hkq : (2 ^ eb - 2) * 2 ^ (p - 1) + 2 ^ (p - 1) = F.fmt.infBits := by
+    rw [hinf, ← Nat.succ_mul]; congr 1; omega
+  have henc : ∀ x, encode F.fmt (2 ^ eb - 2) (2 ^ (p - 1) + x) = F.fmt.infBits := by
+    intro x
+    unfold encode
+    rw [hfp, if_pos (by omega)]
+  apply negativeDigitComp_abstract lay hden hdbg hr Th T2 hM fp he he' (2 ^ eb - 2) (2 ^ (p - 1)) (by omega) ?_
+    (fun _ => Nat.le_refl _) (by omega) ?_ (Nat.le_of_eq hkq) (by rw [hval, henc]) hfitT hfitR
+  · rw [round_down_bits lay fp hm1 hm2 hp2]
+    unfold encode
+    rw [hfp, if_pos hov, hkq]
+  · intro ord
+    obtain ⟨r1, r2⟩ := round_bits lay fp.mant fp.exp (fun isOdd _ _ => ordUp ord isOdd) hm1 hm2 hp2
+    refine ⟨r1, ?_⟩
+    rw [r2, henc]
+    unfold encode
+    rw [hfp, if_pos (by omega)]
 
 end LexVerif.Proof.Slow
